@@ -227,7 +227,7 @@ def fmtG6 (l : Lit) : Option (List Char) :=
 /-! ### `_handle_literal`, float branch -/
 
 /-- `.error .indexError`: the call raises; `.ok none`: outside the model's domain -/
-def handle (l : Lit) : Except Err (Option (List Char)) :=
+def handleLegacy (l : Lit) : Except Err (Option (List Char)) :=
   match pyStr l with
   | none => .ok none
   | some s =>
@@ -239,6 +239,20 @@ def handle (l : Lit) : Except Err (Option (List Char)) :=
 
 /-- what a meaning-preserving renderer prints: the canonical lexeme -/
 def render (l : Lit) : List Char := text (canonI l.1) ++ '.' :: text (canonF l.2)
+
+/-! ### `_handle_literal`, float branch, as it is since /repo 62b5ed8
+
+      text = format(Decimal(repr(value)), "f")
+      return text[:-2] if text.endswith(".0") else text
+
+    Inside the domain (`inD`, at most 15 significant digits) `repr(float(text))` is the canonical decimal of the
+    lexeme, so the function prints the canonical lexeme, except that an integral value loses its `.0`
+    (kept as it was: an upstream reference output pins `cast(3.0, string)` ↦ `cast(3, string)`).
+    `handleLegacy` above is the function as it was at the pinned commit. -/
+def handle (l : Lit) : Except Err (Option (List Char)) :=
+  if !inD l then .ok none
+  else if canonF l.2 = [0] then .ok (some (text (canonI l.1)))
+  else .ok (some (render l))
 
 /-! ### re-lexing the output -/
 
